@@ -4,6 +4,7 @@ import (
 	"context"
 	"math/rand"
 	"runtime"
+	"strings"
 
 	protocol "github.com/hujm2023/go-sms-protocol"
 	"github.com/hujm2023/go-sms-protocol/datacoding"
@@ -40,6 +41,14 @@ func genBatch(g *genCtx) {
 			g.emit(c)
 		}
 		n++
+	}
+	// contents that need more than 255 parts in UCS-2 but not in a one-octet coding (and the other way round)
+	for _, proto := range []string{"CMPP", "SMPP"} {
+		for i, content := range []string{strings.Repeat("a", 20000), strings.Repeat("a", 34200), strings.Repeat("中", 17100), strings.Repeat("中a", 9000)} {
+			for _, l := range [][]int{{batchValid[proto][0], 8}, {8}, batchValid[proto]} {
+				emit(Case{"k": "build", "proto": proto, "cands": l, "origin": []int{-1, 8, batchValid[proto][0]}[i%3], "content": scalars(content), "procs": 4, "ref": i})
+			}
+		}
 	}
 	for _, proto := range []string{"CMPP", "SMPP"} {
 		valid := batchValid[proto]
@@ -117,7 +126,12 @@ func genBatch(g *genCtx) {
 				for rep := 0; rep < reps; rep++ {
 					sh := append([]int{}, l...)
 					r.Shuffle(len(sh), func(i, j int) { sh[i], sh[j] = sh[j], sh[i] })
-					emit(Case{"k": "build", "proto": proto, "cands": sh, "origin": origin, "content": scalars(content), "procs": []int{1, 2, 4, 16}[rep%4], "ref": r.Intn(256)})
+					c := Case{"k": "build", "proto": proto, "cands": sh, "origin": origin, "content": scalars(content), "procs": []int{1, 2, 4, 16}[rep%4], "ref": r.Intn(256)}
+					if rep == 0 {
+						// ... and once more with only the original coding changed (or taken away)
+						c["again"] = append([]int{-1}, pool...)[r.Intn(len(pool)+1)]
+					}
+					emit(c)
 				}
 			}
 		}
@@ -221,31 +235,44 @@ func runBatch(c Case, tr *Tracer) {
 		} else if reuse {
 			b.OriginDataCoding(nil)
 		}
-		var parts [][]byte
-		var actual datacoding.ProtocolDataCoding
-		var err error
-		pan := guard(func() { parts, actual, err = b.Build(context.Background()) })
-		coding := -1
-		if err == nil && !pan && actual != nil {
-			switch a := actual.(type) {
-			case datacoding.CMPPDataCoding:
-				coding = int(a)
-			case datacoding.SMPPDataCoding:
-				coding = int(a)
+		doBuild := func(origin int) {
+			var parts [][]byte
+			var actual datacoding.ProtocolDataCoding
+			var err error
+			pan := guard(func() { parts, actual, err = b.Build(context.Background()) })
+			coding := -1
+			if err == nil && !pan && actual != nil {
+				switch a := actual.(type) {
+				case datacoding.CMPPDataCoding:
+					coding = int(a)
+				case datacoding.SMPPDataCoding:
+					coding = int(a)
+				}
 			}
+			mutated := false
+			for i := range spare {
+				want := toPDC(proto, 250+i)
+				if i < len(cands) {
+					want = toPDC(proto, cands[i])
+				}
+				if spare[i] != want {
+					mutated = true
+				}
+			}
+			tr.emit(Ev{"ev": "Build", "mutated": mutated, "proto": proto, "cands": cands, "origin": origin, "content": scalars(content), "empty": content == "",
+				"env": env, "ucs2can": ucs2can, "err": err != nil, "coding": coding, "nparts": len(parts), "panic": pan, "site": proto + ".Build"})
 		}
-		mutated := false
-		for i := range spare {
-			want := toPDC(proto, 250+i)
-			if i < len(cands) {
-				want = toPDC(proto, cands[i])
+		doBuild(origin)
+		if o2, ok := c["again"]; ok {
+			// the same builder is asked again after ONLY the original coding has been set anew
+			origin2 := caseInt(map[string]interface{}{"o": o2}, "o")
+			if origin2 >= 0 {
+				b.OriginDataCoding(toPDC(proto, origin2))
+			} else {
+				b.OriginDataCoding(nil)
 			}
-			if spare[i] != want {
-				mutated = true
-			}
+			doBuild(origin2)
 		}
-		tr.emit(Ev{"ev": "Build", "mutated": mutated, "proto": proto, "cands": cands, "origin": origin, "content": scalars(content), "empty": content == "",
-			"env": env, "ucs2can": ucs2can, "err": err != nil, "coding": coding, "nparts": len(parts), "panic": pan, "site": proto + ".Build"})
 	}
 }
 
